@@ -22,7 +22,7 @@ TAIL_B = bytes(8)
 
 
 def jobs(tier):
-    return [("dynunions", tier), ("unionforms", tier), ("longstrings", tier)] + [(tier, c) for c in defs.chunks(defs.space(tier, "medium"), 16)]
+    return [("dynunions", tier), ("unionforms", tier), ("longstrings", tier), ("emptystructs", tier)] + [(tier, c) for c in defs.chunks(defs.space(tier, "medium"), 16)]
 
 
 def _streams(buf: bytes, p: int):
@@ -209,6 +209,54 @@ def union_forms(tier) -> JobResult:
     return res
 
 
+EMPTY_DEFS = [
+    "struct e {}; struct X { uint8 a; e m; uint8 b; };",
+    "struct e {}; struct X { uint8 n; char d[n]; e m; uint8 b; };",
+    "struct e {}; struct X { uint8 a; e m[2]; uint16 b; };",
+    "struct e {}; struct X { e m; uint32 b; };",
+    "struct e {}; union X { e m; uint16 b; };",
+]
+
+
+def empty_structs(tier) -> JobResult:
+    """A member of an empty structure type occupies no bytes and must not move the stream - wherever the enclosing structure starts."""
+    from dissect.cstruct import cstruct
+
+    res = JobResult()
+    payload = bytes([2, 0x41, 0x42, 0x43, 0x44, 0x45, 0x46, 0x47])
+    for text in EMPTY_DEFS:
+        for endian in "<>":
+            for align in (False, True):
+                for compiled in (False, True):
+                    cs = cstruct(endian=endian)
+                    case = {"emptystruct": text, "endian": endian, "align": align, "compiled": compiled}
+                    try:
+                        cs.load(text, compiled=compiled, align=align)
+                        s0 = io.BytesIO(payload + TAIL_A)
+                        v0 = cs.X(s0)
+                        base = (repr(impl.norm(v0)), s0.tell())
+                    except Exception as e:  # noqa: BLE001
+                        res.violations.append(Violation("emptystruct:raises", "emptystruct:raises", case, f"{text!r} {endian} align={align} compiled={compiled}: {impl.exc_sig(e)} {e!r}"))
+                        continue
+                    for p in (4, 8, 16):
+                        for kind, stream in _streams(JUNK_A[:p] + payload + TAIL_A, p):
+                            res.evaluations += 1
+                            res.states += 1
+                            res.transitions += 1
+                            res.nontrivial += 1
+                            try:
+                                v = cs.X(stream)
+                                got = (repr(impl.norm(v)), stream.tell() - p)
+                            except Exception as e:  # noqa: BLE001
+                                got = ("exc", type(e).__name__)
+                            if got != base:
+                                res.violations.append(Violation("emptystruct:position-dependent", "emptystruct:position-dependent", dict(case, offset=p),
+                                    f"{text!r} {endian} align={align} compiled={compiled}: at offset {p} via {kind}: {got}; the same bytes on their own: {base}"))
+                                break
+    res.samples.append({"empty_structs": EMPTY_DEFS})
+    return res
+
+
 LONG_LENGTHS = sorted(set(range(0, 70)) | {126, 127, 128, 129, 254, 255, 256, 257, 258, 300, 511, 512, 513, 1023, 1024, 1025, 4095, 4096, 4097, 8191, 8192, 8193, 65535, 65536, 65537})
 
 
@@ -389,6 +437,8 @@ def run(job) -> JobResult:
         return union_forms(job[1])
     if job[0] == "longstrings":
         return long_strings(job[1])
+    if job[0] == "emptystructs":
+        return empty_structs(job[1])
     res = JobResult()
     tier, chunk = job
     for names in chunk:
@@ -403,6 +453,8 @@ def replay(case):
         return [v for v in dynamic_unions("thorough").violations if v.case == case]
     if "unionform" in case:
         return [v for v in union_forms("thorough").violations if v.case == case]
+    if "emptystruct" in case:
+        return [v for v in empty_structs("thorough").violations if v.case == case]
     if "longstring" in case:
         return [v for v in long_strings("thorough").violations if v.case == case]
     res = JobResult()
